@@ -283,7 +283,10 @@ TagSpace    == IxSpace(TagPool, TagTriples)
 RECURSIVE Words(_)
 Words(n) == IF n = 0 THEN {<<>>} ELSE {<<a>> \o w : a \in Alphabet, w \in Words(n - 1)}
 OrderNames == Words(1) \cup Words(2)
-ShaFor(name, mode) == 1 + ((Len(name) + (mode \div 4096)) % 3)
+\* ids of the right type (hex pool: 1,2 trees; 3,4,5 commits; 6 blob), so that git mktree accepts the entry
+ShaFor(name, mode) == IF mode = 16384 THEN 1 + (Len(name) % 2)
+                      ELSE IF mode = 57344 THEN 3 + (Len(name) % 3)
+                      ELSE 6
 E(name, mode) == [name |-> name, mode |-> mode, sha |-> ShaFor(name, mode)]
 OrderUniverse == {E(n, m) : n \in OrderNames, m \in {33188, 16384}}          \* 100644, 40000
 Modes == {33188, 33261, 33204, 40960, 16384, 57344}                          \* 100644 100755 100664 120000 40000 160000
@@ -305,26 +308,33 @@ Pools == [commit |-> CommitPool, tag |-> TagPool, commitFields |-> CommitFields,
 ASSUME "POOL_FILE" \in DOMAIN IOEnv => JsonSerialize(IOEnv.POOL_FILE, Pools)
 
 \* ------------------------------------------------------------------ enumeration: one state per case, one transition per one-field edit
-VARIABLES kind, ix, case, key, toks
-vars == <<kind, ix, case, key, toks>>
+VARIABLES kind, ix, case, key, toks, strict
+vars == <<kind, ix, case, key, toks, strict>>
+
+\* what `git fsck --strict' accepts among the canonical cases (validated against git 2.39.5 on every
+\* enumerated case, both ways): everything except timestamps that do not fit git's unsigned
+\* timestamp_t (negative ones).  dulwich must still serialise, name and parse the others.
+GitStrictOK(k, c) == CASE k = "commit" -> ~c.atime.neg /\ ~c.ctime.neg
+                       [] k = "tag"    -> Len(c.tagger) = 0 \/ ~c.ttime.neg
+                       [] OTHER        -> TRUE
 
 Init ==
     \/ /\ "commit" \in Kinds /\ kind = "commit"
        /\ ix \in CommitSpace
        /\ case = CaseOf(CommitPool, ix) /\ key = KeyStr(CommitFields, ix)
-       /\ toks = ToksStr(SerCommit(case))
+       /\ toks = ToksStr(SerCommit(case)) /\ strict = GitStrictOK(kind, case)
     \/ /\ "tag" \in Kinds /\ kind = "tag"
        /\ ix \in TagSpace
        /\ case = CaseOf(TagPool, ix) /\ key = KeyStr(TagFields, ix)
-       /\ toks = ToksStr(SerTag(case))
+       /\ toks = ToksStr(SerTag(case)) /\ strict = GitStrictOK(kind, case)
     \/ /\ "tree" \in Kinds /\ kind = "tree"
        /\ case \in TreeSpace
        /\ ix = <<>> /\ key = TreeKey(case)
-       /\ toks = ToksStr(SerTree(case))
+       /\ toks = ToksStr(SerTree(case)) /\ strict = TRUE
     \/ /\ "blob" \in Kinds /\ kind = "blob"
        /\ case \in BlobSpace
        /\ ix = <<>> /\ key = BlobKey(case)
-       /\ toks = ToksStr(SerBlob(case))
+       /\ toks = ToksStr(SerBlob(case)) /\ strict = TRUE
 
 EditField(P, F, Space) ==
     \E f \in DOMAIN P : \E i \in 1..Len(P[f]) :
@@ -332,7 +342,7 @@ EditField(P, F, Space) ==
         /\ ix' = [ix EXCEPT ![f] = i]
         /\ ix' \in Space
         /\ case' = CaseOf(P, ix') /\ key' = KeyStr(F, ix')
-        /\ toks' = ToksStr(Ser(kind, case'))
+        /\ toks' = ToksStr(Ser(kind, case')) /\ strict' = GitStrictOK(kind, case')
         /\ UNCHANGED kind
 
 EditTree ==
@@ -340,7 +350,7 @@ EditTree ==
         /\ case' = IF e \in case THEN case \ {e} ELSE case \cup {e}
         /\ case' \in TreeSpace
         /\ key' = TreeKey(case') /\ toks' = ToksStr(SerTree(case'))
-        /\ UNCHANGED <<kind, ix>>
+        /\ UNCHANGED <<kind, ix, strict>>
 
 Next == \/ kind = "commit" /\ EditField(CommitPool, CommitFields, CommitSpace)
         \/ kind = "tag" /\ EditField(TagPool, TagFields, TagSpace)
